@@ -22,7 +22,7 @@ def _els(d):
 
 
 # compact forms document for the symbolic condition (injected attributes are restored)
-COMPACT = '''<html><head><meta http-equiv="content-language" content="en"></head><body><form id="f1"><input id="r1" type="radio" name="g"><input id="r2" type="radio" name="g"><input id="s1" type="submit"><button id="b1" type="submit"></button></form><p id="p1">x<span id="sp">y</span></p><input id="r3" type="radio" name="g"></body></html>'''
+COMPACT = '''<html><head><meta http-equiv="content-language" content="en"></head><body><form id="f1"><input id="r1" type="radio" name="g"><input id="r2" type="radio" name="g"><input id="s1" type="submit"><button id="b1" type="submit"></button></form><p id="p1">x<span id="sp">y</span></p><iframe id="fr"><html><body><p id="ip">i</p><input id="r5" type="radio" name="g" checked></body></html></iframe><input id="r3" type="radio" name="g"><form id="f2"><input id="r6" type="radio" name="g" checked><input id="s2" type="submit"></form></body></html>'''
 FD = bs4.BeautifulSoup(COMPACT, 'html.parser')
 F_HTML = FD.find('html')
 F_META = FD.find('meta')
@@ -223,8 +223,10 @@ def odd_attrs_unchanged_ok(si: int, k: int) -> bool:
 TWIN_MARKUP = ('<body><form><input type="radio" name="g"><button type="submit">go</button></form>'
                '<form><input type="radio" name="g"><button type="submit">go</button></form>'
                '<div><form><input type="radio" name="g"><button type="submit">go</button></form></div>'
+               '<form><input type="radio" name="g" checked><input type="radio" name="g"><button type="submit">go</button></form>'
+               '<input type="radio" name="g"><iframe><html><body><input type="radio" name="g" checked><p lang="fr">t</p></body></html></iframe>'
                '<section class="m"><ul><li>item</li></ul></section><section class="b"><ul><li>item</li></ul></section></body>')
-TWIN_SELECTORS = [sv.compile(s) for s in (':default', ':indeterminate', 'form :default', ':checked, :default', '.m li', '.b li',
+TWIN_SELECTORS = [sv.compile(s) for s in (':scope', ':not(:scope)', 'li:scope, form:scope', ':default', ':indeterminate', ':lang(fr)', ':not(:indeterminate)', 'input:indeterminate + *', 'form :default', ':checked, :default', '.m li', '.b li',
                                           'div button', ':not(.m) li', 'section:has(li)', 'li:first-child', 'form > *',
                                           ':is(.b, div) :is(li, button)', 'ul > li:only-child')]
 
@@ -243,10 +245,13 @@ def twins_ok(si: int, parser: int) -> bool:
         c = TWIN_SELECTORS[si]
         els = _els(d)
         sel = [id(e) for e in c.select(d)]
-        ok = sel == [id(e) for e in els if c.match(e)]
-        ok = ok and [id(e) for e in c.filter(els)] == sel
+        scoped = ':scope' in c.pattern
+        alone = [id(e) for e in els if c.match(e)]
+        ok = scoped or sel == alone
+        # filter(iterable) asks every item on its own, whatever its neighbours in the iterable are
+        ok = ok and [id(e) for e in c.filter(els)] == alone and [id(e) for e in c.filter(els[::-1])] == alone[::-1]
         for sub in els:
             if sub.name in ('form', 'section', 'div', 'body'):
                 inner = [id(e) for e in c.select(sub)]
-                ok = ok and inner == [id(e) for e in _els(sub) if id(e) in sel]
+                ok = ok and (scoped or inner == [id(e) for e in _els(sub) if id(e) in sel])
     return ret(ok)
